@@ -100,18 +100,39 @@ fn main() {
         };
         // the extension law is about the 30-day horizon: try it across a leap-year end as well
         let bds = base_dates();
-        let runs: Vec<(chrono::NaiveDate, Order)> = if par.law == "extend" {
+        let runs: Vec<(chrono::NaiveDate, Order, &str)> = if par.law == "extend" {
             // ... and with the first later slot falling on 6 April 2024, the day after the prefix's tax year closes
             let first_ext = pair.b.days.get(par.p.unwrap_or(0)).copied().unwrap_or(0) - pair.b.days.first().copied().unwrap_or(0);
             let apr6 = NaiveDate::from_ymd_opt(2024, 4, 6).unwrap_or(bds[0]) - chrono::Duration::days(first_ext);
-            vec![(bds[0], Order::Canonical), (bds[1], Order::Shuffled(case_no as u64)), (bds[7], Order::ActionsFirst), (apr6, Order::Canonical)]
+            vec![(bds[0], Order::Canonical, "plain"), (bds[1], Order::Shuffled(case_no as u64), "plain"), (bds[7], Order::ActionsFirst, "plain"), (apr6, Order::Canonical, "plain"),
+                 (bds[0], Order::Canonical, "mixed_fills"), (bds[0], Order::Canonical, "later_lines_first")]
         } else {
-            vec![(base, Order::Canonical), (base, Order::Shuffled(case_no as u64)), (base, Order::ActionsFirst)]
+            vec![(base, Order::Canonical, "plain"), (base, Order::Shuffled(case_no as u64), "plain"), (base, Order::ActionsFirst, "plain")]
         };
-        for (base, order) in runs {
+        for (base, order, mode) in runs {
             let r = Render { base, order, fills: Fills::One, lower: false, dividends: false, only: None };
-            let ta = render(&pair.a, &r);
-            let tb = render(&pair.b, &r);
+            let (ta, tb) = match mode {
+                // the prefix with its purchases entered as two fills separated by another security's line and nothing else
+                // merged; the later transactions entered as adjacent fills (what is merged later must not reach back)
+                "mixed_fills" => {
+                    let lp = date_of(&pair.a, base, par.p.unwrap_or(0));
+                    let ta = render(&pair.a, &Render { fills: Fills::BuysSeparated, ..r });
+                    let mut tb = ta.clone();
+                    tb.extend(render(&pair.b, &Render { fills: Fills::Halves, ..r }).into_iter().filter(|t| t.date > lp));
+                    (ta, tb)
+                }
+                // the prefix in date order with each day's SPLIT / event lines BEFORE its trades; the later transactions
+                // pasted in front of it (a file that is no longer in date order)
+                "later_lines_first" => {
+                    let lp = date_of(&pair.a, base, par.p.unwrap_or(0));
+                    let mut ta = render(&pair.a, &r);
+                    ta.sort_by_key(|t| (t.date, matches!(t.operation, cgt_core::Operation::Buy { .. } | cgt_core::Operation::Sell { .. })));
+                    let mut tb: Vec<Transaction> = render(&pair.b, &r).into_iter().filter(|t| t.date > lp).collect();
+                    tb.extend(ta.clone());
+                    (ta, tb)
+                }
+                _ => (render(&pair.a, &r), render(&pair.b, &r)),
+            };
             let ra = run(&ta, &config);
             let rb = run(&tb, &config);
             cnt.add("executions", 2);
